@@ -207,7 +207,7 @@ CLAIMED = {
              "a load of short, long and streaming requests during 1-3 HUPs that change worker count and a marker variable "
              "(refused / cut / complete per request, old workers gone, new count, new marker); the real SyncWorker.run() loop "
              "in-process with TERM delivered at every system-call boundary (every connection taken off the listen queue must be "
-             "answered); judged by TLC against specs/ReloadTrace.tla. Real reloads include a configuration file named relative to the start directory; line-level injection follows a HUP on the simulated kernel (clause MasterExitedUnasked).",
+             "answered); judged by TLC against specs/ReloadTrace.tla. The real sync loop follows specs/SyncLoop.tla (AtMostOneAcceptAfterStop). Real reloads include a configuration file named relative to the start directory; line-level injection follows a HUP on the simulated kernel (clause MasterExitedUnasked).",
         design_ref="DESIGN.md 4 C10, 9",
         technique="TLA+ model checking of reload + TLC trace validation of the real Arbiter on a simulated kernel, of real-process reloads under load and of the real sync loop with TERM injected at every system call"),
     "C11": dict(
@@ -216,7 +216,7 @@ CLAIMED = {
              "simulated kernel in virtual time, judged by specs/ArbiterTrace.tla. Worker side on real processes (--timeout 2): "
              "blocked application, SIGSTOP, SIGABRT ignored, with and without a master that is woken several times per second; "
              "healthy workers idle, busy with back-to-back sub-timeout requests, busy on several listeners, busy with a never "
-             "empty listen queue, for sync / gthread / gevent (thorough: eventlet); judged by TLC against specs/TimeoutTrace.tla. Real scenarios include a listening socket inherited in blocking mode and workers draining after a reload; the simulated kernel lets an aborted worker dump core.",
+             "empty listen queue, for sync / gthread / gevent (thorough: eventlet); judged by TLC against specs/TimeoutTrace.tla. Real scenarios include a listening socket inherited in blocking mode and workers draining after a reload; the simulated kernel lets an aborted worker dump core. Worker side: specs/SyncLoop.tla (the sync worker's loop, TLC safety + liveness) with the events of the real SyncWorker.run() validated by specs/SyncLoopTrace.tla (BeatBeforeEveryBlockingOp, Leaves).",
         design_ref="DESIGN.md 4 C11, 9",
         technique="TLA+ timed model checking of the timeout scan + TLC trace validation of the real Arbiter in virtual time and of real-process hang / healthy scenarios"),
 }
